@@ -231,7 +231,11 @@ func isStructLit(p *packages.Package, cl *ast.CompositeLit) bool {
 	if !ok {
 		return false
 	}
-	_, isStruct := types.Unalias(t.Type).Underlying().(*types.Struct)
+	ty := types.Unalias(t.Type)
+	if p, ok := ty.Underlying().(*types.Pointer); ok { // elided &T{...} elements of a []*T literal
+		ty = types.Unalias(p.Elem())
+	}
+	_, isStruct := ty.Underlying().(*types.Struct)
 	return isStruct
 }
 
